@@ -94,42 +94,39 @@ end Slice
 
 namespace Bump
 
-/-- **the range a bump edit replaces holds exactly the version text**: for a package that is not hash-pinned, the located
-    package starts `byteLen version` bytes before the end of an occurrence of the version in the document — the slice of
-    the document from its start offset over the length of the version IS the version, it lies inside the original token,
-    and offset and column moved by the same amount -/
-theorem locate_covers (content : Text) (p q : PkgInfo) (hh : p.commitHash = none) (h : locateBytes content p = some q) :
-    slice content q.startOffset (q.startOffset + byteLen p.version) = some p.version ∧
-    p.startOffset ≤ q.startOffset ∧ q.startOffset + byteLen p.version ≤ p.endOffset ∧
+/-- **the narrowed range holds exactly the text it is meant to hold** (the version; the hash of a hash-pinned action):
+    the slice of the document over the located range IS that text, it lies inside the original token, and offset and
+    column moved by the same amount -/
+theorem locate_covers (content : Text) (p q : PkgInfo) (h : locateBytes content p = some q) :
+    slice content q.startOffset (q.startOffset + byteLen (rangeText p)) = some (rangeText p) ∧
+    p.startOffset ≤ q.startOffset ∧ q.startOffset + byteLen (rangeText p) ≤ p.endOffset ∧
     q.column - p.column = q.startOffset - p.startOffset ∧
-    q.version = p.version ∧ q.name = p.name ∧ q.line = p.line ∧ q.endOffset = p.endOffset := by
+    q.version = p.version ∧ q.name = p.name ∧ q.line = p.line ∧ q.endOffset = q.startOffset + byteLen (rangeText p) ∧
+    q.commitHash = p.commitHash ∧ q.extra = p.extra := by
   unfold locateBytes at h
-  simp only [hh, Option.isSome_none, Bool.false_eq_true, if_false] at h
   cases hs : slice content p.startOffset p.endOffset with
   | none => simp [hs] at h
   | some token =>
     simp only [hs] at h
-    cases hr : rfind? p.version token with
+    cases hr : rfind? (rangeText p) token with
     | none => simp [hr] at h
     | some k =>
       simp only [hr, Option.some.injEq] at h
       subst h
       obtain ⟨x, z, hc, hxa, hxb⟩ := slice_split content _ _ token hs
-      obtain ⟨pre, post, ht, hk⟩ := rfind_split p.version token k hr
-      have hcc : content = (x ++ pre) ++ p.version ++ (post ++ z) := by rw [hc, ht]; simp
+      obtain ⟨pre, post, ht, hk⟩ := rfind_split (rangeText p) token k hr
+      have hcc : content = (x ++ pre) ++ rangeText p ++ (post ++ z) := by rw [hc, ht]; simp
       have hl : byteLen (x ++ pre) = p.startOffset + k := by rw [byteLen_append, hxa, hk]
-      have htl : byteLen token = byteLen pre + byteLen p.version + byteLen post := by
+      have htl : byteLen token = byteLen pre + byteLen (rangeText p) + byteLen post := by
         rw [ht, byteLen_append, byteLen_append]
-      refine ⟨?_, ?_, ?_, ?_, rfl, rfl, rfl, rfl⟩
-      · show slice content (p.startOffset + k) (p.startOffset + k + byteLen p.version) = some p.version
+      refine ⟨?_, ?_, ?_, ?_, rfl, rfl, rfl, rfl, rfl, rfl⟩
+      · show slice content (p.startOffset + k) (p.startOffset + k + byteLen (rangeText p)) = some (rangeText p)
         rw [← hl, hcc]; exact slice_append _ _ _
       · show p.startOffset ≤ p.startOffset + k; omega
-      · show p.startOffset + k + byteLen p.version ≤ p.endOffset; omega
+      · show p.startOffset + k + byteLen (rangeText p) ≤ p.endOffset; omega
       · show p.column + k - p.column = p.startOffset + k - p.startOffset; omega
 
-/-- a hash-pinned package is left as it is -/
-theorem locate_hash (content : Text) (p : PkgInfo) (hh : p.commitHash.isSome = true) : locateBytes content p = some p := by
-  simp [locateBytes, hh]
+theorem rangeText_version (p : PkgInfo) (hh : p.commitHash = none) : rangeText p = p.version := by simp [rangeText, hh]
 
 /-- the second step changes the column only -/
 theorem toClientColumn_fields (content : Text) (q : PkgInfo) :
@@ -148,33 +145,60 @@ theorem c07_client_column (before lp mid post : Text) (q : PkgInfo)
   unfold toClientColumn
   rw [Pos.utf16Span_spec before lp mid post q.column q.startOffset q.endOffset hcol hso heo hnl]
 
+/-- what `locate` returns, in terms of its two steps -/
+theorem locate_some (content : Text) (p q : PkgInfo) (h : locate content p = some q) :
+    ∃ qb, locateBytes content p = some qb ∧ commentGapOk content qb = true ∧ q = toClientColumn content qb := by
+  unfold locate at h
+  cases hb : locateBytes content p with
+  | none => simp [hb] at h
+  | some qb =>
+    simp only [hb] at h
+    split at h
+    · rename_i hg
+      exact ⟨qb, rfl, hg, by simpa using h.symm⟩
+    · cases h
+
 /-- non-vacuity: a JSR import and an npm alias are pointed at their version (after a non-ASCII key the column is counted
-    in UTF-16 units); a normalised PEP 440 spec is dropped -/
+    in UTF-16 units); a normalised PEP 440 spec is dropped; a quoted hash is pointed at the hash; a quoted hash followed
+    by a version comment gets no action (the closing quote would be swallowed) -/
 example : (locate "\"jsr:@std/path@^1.0.0\"".toList ⟨"@std/path".toList, "^1.0.0".toList, none, 1, 21, 0, 1, none⟩).map
     (fun q => (q.startOffset, q.column)) = some (15, 15) := by decide
 example : (locate "\"é\": \"npm:r@^1.0.0\"".toList ⟨"r".toList, "^1.0.0".toList, none, 7, 19, 0, 7, none⟩).map
     (fun q => (q.startOffset, q.column)) = some (13, 12) := by decide
 example : locate "\">= 1.0\"".toList ⟨"r".toList, ">=1.0".toList, none, 1, 7, 0, 1, none⟩ = none := by decide
+example : (locate "uses: \"a/b@abc\"".toList ⟨"a/b".toList, "abc".toList, some "abc".toList, 10, 15, 0, 10, none⟩).map
+    (fun q => (q.startOffset, q.endOffset)) = some (11, 14) := by decide
+example : locate "uses: \"a/b@abc\" # v1".toList ⟨"a/b".toList, "v1".toList, some "abc".toList, 10, 15, 0, 10, some ("v1".toList, 16, 20)⟩ = none := by decide
 
-/-- **every offered edit replaces exactly the current version text**: an action computed for a located package covers,
-    on the package's line, as many units as the version has bytes, starting where the document reads the version -/
+/-- **every offered edit replaces exactly the current version text**: an action computed for a located package that is
+    not hash-pinned covers, on the package's line, as many units as the version has bytes, starting where the document
+    reads the version -/
 theorem c07_located_edit (content : Text) (p q : PkgInfo) (vs : List Text) (a : Action) (hh : p.commitHash = none)
     (hl : locate content p = some q) (ha : a ∈ bumpActions (some vs) q) :
     a.line = p.line ∧ a.endCol - a.startCol = byteLen p.version ∧ a.startCol = q.column ∧
     slice content q.startOffset (q.startOffset + (a.endCol - a.startCol)) = some p.version ∧
     p.startOffset ≤ q.startOffset ∧ q.startOffset + byteLen p.version ≤ p.endOffset := by
-  unfold locate at hl
-  cases hb : locateBytes content p with
-  | none => simp [hb] at hl
-  | some qb =>
-    simp only [hb, Option.map_some, Option.some.injEq] at hl
-    obtain ⟨hs, h1, h2, _, hv, _, hline, _⟩ := locate_covers content p qb hh hb
-    obtain ⟨fso, _, fv, fl, _, _⟩ := toClientColumn_fields content qb
-    rw [hl] at fso fv fl
-    obtain ⟨t, label, keep, _, _, _, _, hal, hsc, hec⟩ := C07.c07_action_sound vs q a ha
-    have hw : a.endCol - a.startCol = byteLen p.version := by rw [hec, hsc, fv, hv]; omega
-    refine ⟨by rw [hal, fl, hline], hw, hsc, ?_, by rw [fso]; exact h1, by rw [fso]; exact h2⟩
-    rw [hw, fso]; exact hs
+  obtain ⟨qb, hb, _, hq⟩ := locate_some content p q hl
+  obtain ⟨hs, h1, h2, _, hv, _, hline, _, _, _⟩ := locate_covers content p qb hb
+  rw [rangeText_version p hh] at hs h2
+  obtain ⟨fso, _, fv, fl, _, _⟩ := toClientColumn_fields content qb
+  rw [← hq] at fso fv fl
+  obtain ⟨t, label, keep, _, _, _, _, hal, hsc, hec⟩ := C07.c07_action_sound vs q a ha
+  have hw : a.endCol - a.startCol = byteLen p.version := by rw [hec, hsc, fv, hv]; omega
+  refine ⟨by rw [hal, fl, hline], hw, hsc, ?_, by rw [fso]; exact h1, by rw [fso]; exact h2⟩
+  rw [hw, fso]; exact hs
+
+/-- for a hash-pinned action the located range holds exactly the hash -/
+theorem c07_located_hash (content : Text) (p q : PkgInfo) (h : Text) (hh : p.commitHash = some h)
+    (hl : locate content p = some q) :
+    slice content q.startOffset q.endOffset = some h ∧ p.startOffset ≤ q.startOffset ∧ q.endOffset ≤ p.endOffset := by
+  obtain ⟨qb, hb, _, hq⟩ := locate_some content p q hl
+  obtain ⟨hs, h1, h2, _, _, _, _, he, _, _⟩ := locate_covers content p qb hb
+  have hr : rangeText p = h := by simp [rangeText, hh]
+  rw [hr] at hs h2 he
+  obtain ⟨fso, feo, _, _, _, _⟩ := toClientColumn_fields content qb
+  rw [← hq] at fso feo
+  exact ⟨by rw [fso, feo, he]; exact hs, by rw [fso]; exact h1, by rw [feo, he]; exact h2⟩
 
 end Bump
 end Vlsp
